@@ -457,13 +457,13 @@ pub(crate) fn c14_reader_quit<S: Shape>() {
 pub(crate) fn c14_reader_quit_wide<S: Shape>() {
     reader_enum::<S, S>(1, &[2], &[(0, 0), (1, 1)], &[false, true], &[false], &[false], false)
 }
-/// C14: convert detection through the reader (T = S with NULs converted), capacity 1 / 1-byte reads
+/// C14: convert detection through the reader (T = S with NULs converted), capacity 1 / 1-byte reads, no invert
 pub(crate) fn c14_reader_convert<S: Shape, T: Shape>() {
-    reader_enum::<S, T>(2, &[0], &[(0, 0), (1, 1)], &[false, true], &[false], &[false], false)
+    reader_enum::<S, T>(2, &[0], &[(0, 0), (1, 1)], &[false], &[false], &[false], false)
 }
-/// C14: convert detection, capacity 2 / 3-byte reads
+/// C14: convert detection, capacity 2 / 3-byte reads, contexts (1,1), with and without invert
 pub(crate) fn c14_reader_convert_wide<S: Shape, T: Shape>() {
-    reader_enum::<S, T>(2, &[1], &[(0, 0), (1, 1)], &[false, true], &[false], &[false], false)
+    reader_enum::<S, T>(2, &[1], &[(1, 1)], &[false, true], &[false], &[false], false)
 }
 
 include!("c13.rs");
